@@ -5,7 +5,7 @@ cd /verif
 export PATH=/opt/veriftools/go1.26.8/bin:$PATH GOFLAGS=-mod=mod GOPROXY=off GOSUMDB=off GOTOOLCHAIN=local
 BASE=e3dad1d
 for dir in "$@"; do
-  [ -f "$dir/patch.diff" ] || continue
+  [ -f "$dir/patch.diff" ] || continue; pf="$dir/patch.diff"; [ -f "$dir/patch.orig.diff" ] && pf="$dir/patch.orig.diff"
   [ -f "$dir/confirmed.json" ] && continue
   wt=$(mktemp -d /tmp/cedarvc-seedwt-XXXXXX); rmdir $wt
   git -C /repo worktree add -q --detach $wt $BASE || continue
@@ -13,13 +13,13 @@ for dir in "$@"; do
   demo=$(ls $dir/demo*_test.go 2>/dev/null | head -1)
   run=$(python3 -c "import json,re; m=json.load(open('$dir/meta.json')); r=m.get('demo_run',''); x=re.search(r'-run\s+(\S+)', r); print(x.group(1) if x else 'Test')" 2>/dev/null)
   res_apply=fail; res_build=fail; res_suite=fail; res_demo_with=unknown; res_demo_without=unknown
-  if (cd $wt && git apply $OLDPWD/$dir/patch.diff 2>/dev/null || git apply /verif/$dir/patch.diff); then res_apply=ok; fi
+  if (cd $wt && git apply /verif/$pf); then res_apply=ok; fi
   if (cd $wt && go build ./... >/dev/null 2>&1); then res_build=ok; fi
   if (cd $wt && go test -vet=off -count=1 -timeout 20m ./... > $wt/suite.log 2>&1); then res_suite=pass; fi
   if [ -n "$demo" ] && [ -n "$pkgdir" ]; then
     cp $demo $wt/$pkgdir/zz_seed_demo_test.go
     if (cd $wt && go test -vet=off -count=1 -timeout 300s -run "$run" ./$pkgdir > $wt/demo_with.log 2>&1); then res_demo_with=pass; else res_demo_with=fail; fi
-    (cd $wt && git apply -R /verif/$dir/patch.diff)
+    (cd $wt && git apply -R /verif/$pf)
     if (cd $wt && go test -vet=off -count=1 -timeout 300s -run "$run" ./$pkgdir > $wt/demo_without.log 2>&1); then res_demo_without=pass; else res_demo_without=fail; fi
   fi
   python3 - <<PY
